@@ -99,7 +99,7 @@ def gen_c10_case(r, kind=None):
     if kind != 'discard':
         ops += [save, ['files'], ['loaded']]
         if r.random() < 0.3:
-            ops += [['verify', upd[1], 0, []], ['files']]
+            ops += [['verify', upd[1], 1, []], ['files']]
     c.ops = ops
     return c
 
@@ -136,6 +136,7 @@ def c10_check_case(ctx, c, out, report):
             saved = True
         if op[0] == 'files':
             cur = {p: (d, m) for p, d, m in res[1]}
+            state['last'] = cur
             if first is None:
                 first = cur
             elif not saved:
@@ -148,10 +149,11 @@ def c10_check_case(ctx, c, out, report):
     if len(out) < len(ops) or any(x[0] != 'ok' for x in out):
         k = next((i for i, x in enumerate(out) if x[0] != 'ok'), None)
         if k is not None and ops[k][0] != 'save':
+            ref = state.get('last', first)
             for res in out[k + 1:]:
                 cur = {p: (d, m) for p, d, m in res[1]}
-                if first is not None and cur != first:
-                    diff = sorted(p for p in set(cur) | set(first) if cur.get(p) != first.get(p))
+                if ref is not None and cur != ref:
+                    diff = sorted(p for p in set(cur) | set(ref) if cur.get(p) != ref.get(p))
                     report('written-by-failed-op', f'files changed by a failed {ops[k][0]}: {diff[:5]}')
     if 'post' not in state or first is None or loaded_before is None:
         return None
